@@ -743,3 +743,178 @@ Proof.
     apply (IH k Hk (Hkids k Hk) (Hcl k Hk)).
   - intros r Hr. apply (Hc (tid k) r); [apply in_map; exact Hk|exact Hr].
 Qed.
+
+(* ------------------------------------------------------------------ *)
+(* list() *)
+
+Definition is_end_line (x : lline) : bool := match lkind_of x with LEnd => true | _ => false end.
+(* the lines that introduce a job (all but the "--end--" lines) *)
+Definition heads (l : list lline) : list lline := filter (fun x => negb (is_end_line x)) l.
+
+Lemma oconcat_map_Some {A B} (f : A -> option (list B)) : forall l b,
+  oconcat (map f l) = Some b ->
+  exists bs, Forall2 (fun a x => f a = Some x) l bs /\ b = concat bs.
+Proof.
+  induction l as [|a l IH]; intros b H.
+  - cbn in H. inversion H; subst. exists []. split; [constructor|reflexivity].
+  - cbn [map oconcat] in H. destruct (f a) as [x|] eqn:Ef; [|discriminate].
+    destruct (oconcat (map f l)) as [b'|] eqn:Er; [|discriminate].
+    inversion H; subst. destruct (IH b' eq_refl) as (bs & HF & ->).
+    exists (x :: bs). split; [constructor; auto|reflexivity].
+Qed.
+
+Lemma heads_app a b : heads (a ++ b) = heads a ++ heads b.
+Proof. apply filter_app. Qed.
+
+(* the jobs appear in the listing order, each introduced by exactly one line *)
+Lemma list_lines_walk rq t : forall d l,
+  list_lines_at rq d t = Some l -> map ljob (heads l) = walk rq t.
+Proof.
+  induction t as [i|i kids IH] using jtree_ind2; intros d l H.
+  - cbn in H. inversion H. reflexivity.
+  - cbn [list_lines_at walk] in *. destruct (topo rq (map tid kids)) as [order r]. cbn [fst].
+    destruct (tres_eqb r TOk); [|discriminate].
+    apply oconcat_map_Some in H. destruct H as (bs & HF & ->).
+    induction HF as [|j pj ord bs Hj HF IHF]; [reflexivity|].
+    cbn [concat flat_map]. rewrite heads_app, map_app, IHF. f_equal.
+    rewrite !lookup_app_find in *. destruct (find_kid j kids) as [k|] eqn:Ef; [|discriminate].
+    cbn [option_map join_opt] in Hj. destruct (find_kid_In _ _ _ Ef) as [Hin Ht].
+    destruct k as [a|a ks]; cbn [own_lines tid] in *.
+    + inversion Hj; subst. reflexivity.
+    + destruct (list_lines_at rq (S d) (Sched a ks)) as [lk|] eqn:El; [|discriminate].
+      inversion Hj; subst. cbn [option_map].
+      unfold heads. cbn [filter is_end_line lkind_of negb map ljob]. rewrite filter_app.
+      cbn [filter is_end_line lkind_of negb]. rewrite map_app. cbn [map].
+      rewrite app_nil_r. f_equal. rewrite Forall_forall in IH. eapply IH; eauto.
+Qed.
+
+Lemma assoc_id_map ids : NoDup (map fst ids) -> map (assoc_id ids) (map fst ids) = map snd ids.
+Proof.
+  intros ND. rewrite map_map. apply map_ext_in. intros [j n] Hin. cbn [fst snd].
+  apply assoc_id_In; auto.
+Qed.
+
+Lemma filter_map_comm {A B} (f : A -> B) (p : B -> bool) l :
+  filter p (map f l) = map f (filter (fun x => p (f x)) l).
+Proof.
+  induction l as [|a l IH]; [reflexivity|]. cbn [map filter]. destruct (p (f a)); cbn [map]; rewrite IH; reflexivity.
+Qed.
+
+Definition head_rows (L : list (lline * nat)) : list (lline * nat) :=
+  filter (fun x => negb (is_end_line (fst x))) L.
+
+(* list() shows every job exactly once, numbered 1, 2, 3 ... from the top *)
+Theorem list_numbered rq t L : tree_wf rq t -> unique_jobs t -> list_model rq t = Some L ->
+  map (fun x => ljob (fst x)) (head_rows L) = walk rq t /\
+  Permutation (map (fun x => ljob (fst x)) (head_rows L)) (below t) /\
+  NoDup (map (fun x => ljob (fst x)) (head_rows L)) /\
+  map snd (head_rows L) = seq 1 (length (head_rows L)).
+Proof.
+  intros Hwf Hu H. unfold list_model in H.
+  destruct (set_ids rq t) as [[ids nxt]|] eqn:Es; [|discriminate].
+  destruct (list_lines_at rq 0 t) as [l|] eqn:El; [|discriminate]. inversion H; subst L. clear H.
+  destruct (set_ids_numbers rq t ids nxt Hwf Hu Es) as (Hp & Hnd & Hs & Hw).
+  pose proof (list_lines_walk rq t 0 l El) as Hl.
+  unfold head_rows. rewrite filter_map_comm. cbn [fst]. fold (heads l).
+  rewrite !map_map. cbn [fst snd].
+  assert (E1 : map (fun x => ljob x) (heads l) = walk rq t) by exact Hl.
+  split; [exact E1|]. split; [rewrite E1, <- Hw; exact Hp|]. split; [rewrite E1, <- Hw; exact Hnd|].
+  rewrite map_length.
+  assert (E2 : map (fun x => assoc_id ids (ljob x)) (heads l) = map (assoc_id ids) (map ljob (heads l)))
+    by (rewrite map_map; reflexivity).
+  rewrite E2, Hl, <- Hw, (assoc_id_map ids Hnd), Hs.
+  f_equal. rewrite <- (map_length ljob (heads l)), Hl, <- Hw, map_length. reflexivity.
+Qed.
+
+(* ---- the numbering follows the requirements *)
+
+Definition before (l : list nat) (x y : nat) : Prop := exists A B C, l = A ++ x :: B ++ y :: C.
+
+Lemma before_ctx X Y l x y : before l x y -> before (X ++ l ++ Y) x y.
+Proof.
+  intros (A & B & C & ->). exists (X ++ A), B, (C ++ Y).
+  rewrite <- !app_assoc. cbn [app]. rewrite <- !app_assoc. reflexivity.
+Qed.
+
+(* j and r are jobs of one scheduler of the tree and j requires r *)
+Fixpoint sib_req (rq : rmap) (t : jtree) (j r : nat) : Prop :=
+  match t with
+  | Atom _ => False
+  | Sched _ kids =>
+      (In j (map tid kids) /\ In r (map tid kids) /\ In r (rq j)) \/
+      (fix ex (ks : list jtree) : Prop :=
+         match ks with [] => False | k :: ks' => sib_req rq k j r \/ ex ks' end) kids
+  end.
+
+Lemma sib_req_Exists rq ks j r :
+  (fix ex (ks : list jtree) : Prop :=
+     match ks with [] => False | k :: ks' => sib_req rq k j r \/ ex ks' end) ks
+  <-> exists k, In k ks /\ sib_req rq k j r.
+Proof.
+  induction ks as [|k ks IH]; split.
+  - intros [].
+  - intros (k & [] & _).
+  - intros [H|H]; [exists k; split; [left; reflexivity|exact H]|].
+    apply IH in H. destruct H as (k' & Hin & H). exists k'. split; [right; exact Hin|exact H].
+  - intros (k' & [->|Hin] & H); [left; exact H|]. right. apply IH. exists k'. auto.
+Qed.
+
+Lemma flat_map_split {A B} (g : A -> list B) X x Y :
+  flat_map g (X ++ x :: Y) = flat_map g X ++ g x ++ flat_map g Y.
+Proof. rewrite flat_map_app. reflexivity. Qed.
+
+Lemma walk_before rq t : tree_wf rq t -> forall j r, sib_req rq t j r -> before (walk rq t) r j.
+Proof.
+  induction t as [i|i kids IH] using jtree_ind2; intros Hwf j r H; [destruct H|].
+  pose proof (order_perm _ _ _ Hwf) as Hp.
+  destruct (tree_wf_kids _ _ _ Hwf) as (Hok & Hnd & Hkids).
+  cbn [sib_req] in H. cbn [walk].
+  set (g := fun j0 => j0 :: match lookup_app (walk rq) kids j0 with Some l => l | None => [] end).
+  destruct H as [(Hj & Hr & Hreq)|H].
+  - destruct (topo_complete rq (map tid kids) Hnd Hok) as [_ Hord].
+    apply (Permutation_in _ (Permutation_sym Hp)) in Hj.
+    apply in_split in Hj. destruct Hj as (l1 & l2 & E).
+    specialize (Hord l1 j l2 E r Hreq). apply in_split in Hord. destruct Hord as (A & B & ->).
+    rewrite E. rewrite <- app_assoc. cbn [app].
+    rewrite flat_map_split. cbn [flat_map]. rewrite flat_map_split.
+    unfold g at 2 4. cbn [app].
+    exists (flat_map g A),
+           (match lookup_app (walk rq) kids r with Some l => l | None => [] end ++ flat_map g B),
+           (match lookup_app (walk rq) kids j with Some l => l | None => [] end ++ flat_map g l2).
+    rewrite <- !app_assoc. reflexivity.
+  - apply sib_req_Exists in H. destruct H as (k & Hk & H).
+    rewrite Forall_forall in IH, Hkids. specialize (IH k Hk (Hkids k Hk) j r H).
+    assert (Hin : In (tid k) (fst (topo rq (map tid kids)))).
+    { apply (Permutation_in _ (Permutation_sym Hp)). apply in_map. exact Hk. }
+    apply in_split in Hin. destruct Hin as (X & Y & E). rewrite E, flat_map_split.
+    unfold g at 2. rewrite lookup_app_find, (find_kid_self kids k Hnd Hk). cbn [option_map].
+    change (tid k :: walk rq k) with ([tid k] ++ walk rq k). rewrite <- !app_assoc.
+    rewrite app_assoc. apply before_ctx. exact IH.
+Qed.
+
+Lemma ids_position : forall (ids : list (nat * nat)) s A x C,
+  map fst ids = A ++ x :: C -> map snd ids = seq s (length ids) -> In (x, s + length A) ids.
+Proof.
+  induction ids as [|[a n] ids IH]; intros s A x C H1 H2.
+  - destruct A; discriminate.
+  - cbn [map fst snd length seq] in *. inversion H2 as [[E2 E3]].
+    destruct A as [|a' A]; cbn [app length] in *.
+    + inversion H1; subst. left. f_equal. lia.
+    + inversion H1 as [[E0 E1]]. right. replace (s + S (length A)) with (S s + length A) by lia.
+      eapply IH; eauto.
+Qed.
+
+(* a requirement always has a smaller number than the job that requires it *)
+Theorem ids_topological rq t ids nxt : tree_wf rq t -> unique_jobs t ->
+  set_ids rq t = Some (ids, nxt) ->
+  forall j r, sib_req rq t j r -> assoc_id ids r < assoc_id ids j.
+Proof.
+  intros Hwf Hu Es j r H.
+  destruct (set_ids_numbers rq t ids nxt Hwf Hu Es) as (Hp & Hnd & Hs & Hw).
+  destruct (walk_before rq t Hwf j r H) as (A & B & C & E). rewrite <- Hw in E.
+  pose proof (ids_position ids 1 A r (B ++ j :: C) E Hs) as P1.
+  assert (E' : map fst ids = (A ++ r :: B) ++ j :: C) by (rewrite E, <- app_assoc; reflexivity).
+  pose proof (ids_position ids 1 (A ++ r :: B) j C E' Hs) as P2.
+  rewrite (assoc_id_In _ _ _ Hnd P1), (assoc_id_In _ _ _ Hnd P2).
+  rewrite app_length. cbn [length]. lia.
+Qed.
